@@ -8,7 +8,7 @@ use hifitime::{Epoch, TimeScale, TimeSeries};
 
 pub fn meta() -> Meta {
     Meta {
-        rule: "events = one whole iteration of TimeSeries::inclusive / exclusive(start, end, step): repeated next() until None plus one extra next(), and the same series through a for loop / collect. Expected: item k == start + k*step exactly (parts, scale of start), strictly increasing, count == #{k >= 0 : k*step < span} (exclusive) or <= span (inclusive) with span = reading of end's instant in start's scale - start (M-SCALE), None stays None. Series with an ET/TDB operand in a different scale are only generated with spans more than 100 ns away from a multiple of the step; spans whose end has no UTC pre-image are skipped. Generation: start in all nine scales (incl. before the reference epoch), end in the same or another scale, span = n*step + r with r in {0, 1 ns, step-1, random}, steps 1 ns..days, n <= 2000 (quick) plus a few series of 2-5 million items (thorough), series across leap seconds and century boundaries. Non-trivial = end in a different scale, r in {0, 1 ns, step-1}, crossing a leap second or century boundary, start before the reference, n >= 1000; distinct = distinct series hashes among those. Round 6: about forty consumers of the Iterator trait (count last max min fold for_each extend find position zip chain peekable fuse by_ref().take clone eq partition reduce try_for_each ...) from six positions (fresh, after 1, n/2, n-1, n, n+2 items) on series of up to 80 items.",
+        rule: "events = one whole iteration of TimeSeries::inclusive / exclusive(start, end, step): repeated next() until None plus one extra next(), and the same series through a for loop / collect. Expected: item k == start + k*step exactly (parts, scale of start), strictly increasing, count == #{k >= 0 : k*step < span} (exclusive) or <= span (inclusive) with span = reading of end's instant in start's scale - start (M-SCALE), None stays None. Series with an ET/TDB operand in a different scale are only generated with spans more than 100 ns away from a multiple of the step; spans whose end has no UTC pre-image are skipped. Generation: start in all nine scales (incl. before the reference epoch), end in the same or another scale, span = n*step + r with r in {0, 1 ns, step-1, random}, steps 1 ns..days, n <= 2000 (quick) plus a few series of 2-5 million items (thorough), series across leap seconds and century boundaries. Non-trivial = end in a different scale, r in {0, 1 ns, step-1}, crossing a leap second or century boundary, start before the reference, n >= 1000; distinct = distinct series hashes among those. Round 6: about forty consumers of the Iterator trait (count last max min fold for_each extend find position zip chain peekable fuse by_ref().take clone eq partition reduce try_for_each ...) from six positions (fresh, after 1, n/2, n-1, n, n+2 items) on series of up to 80 items. Round 10: nth / skip / step_by with 2^31+1, 2^32, 2^63, usize::MAX; 1 620 series of q x 2^p + r items (p = 31..70) judged on their first 40 items, nth and take; thorough tier: one series walked past 2^31 items.",
         assumptions: &["M-SCALE / M-LEAP / M-DYN for the span"],
         mandatory: &["series/exclusive", "series/inclusive", "series/cross-scale", "series/exact-multiple", "series/one-ns-over", "series/step-minus-one", "series/crosses-leap-second", "series/crosses-century", "series/start-before-reference", "series/ns-step", "series/empty-span", "series/long-span"],
         thorough_scale: 30,
